@@ -98,6 +98,22 @@ class RetObj(list):
         return self is other
 
 
+class AwaitableValue:
+    """A value with __await__ (job handle, future-like) that a coroutine callback returns as its RESULT.  Awaiting it is a
+    mistake of whoever does it: it is recorded, and it yields the opposite of the object's truthiness."""
+
+    def __init__(self, rt, c, truthy):
+        self.rt, self.c, self.truthy = rt, c, truthy
+
+    def __bool__(self):
+        return self.truthy
+
+    def __await__(self):
+        self.rt.notes.append({"kind": "result_awaited", "c": self.c})
+        return (not self.truthy)
+        yield  # pragma: no cover - makes this a generator
+
+
 class RetExc(Exception):
     """An exception INSTANCE handed back as a value ("errors as values"): returned, never raised."""
 
@@ -291,6 +307,21 @@ class Recorder:
         setattr(machine.model, machine.state_field, r.value_of(k, token))
         self.emit({"e": "cbw", "i": slot, "c": c, "v": token})
 
+    # -- a callback takes a copy of its machine, in the middle of the transition ---------------
+    def cbcopy(self, slot, c, machine, op):
+        r = self.runner
+        j = op["copy"]
+        if r is None or j in r.sm or slot not in r.sm:
+            return
+        mode, self.mode = self.mode, "registering"
+        try:
+            real = r.sm[slot]              # (callbacks may hold a weakref.proxy of the machine)
+            clone = copy.deepcopy(real) if op.get("how", "deepcopy") == "deepcopy" else pickle.loads(pickle.dumps(real))
+        finally:
+            self.mode = mode
+        r.adopt_clone(slot, j, real, clone)
+        self.emit({"e": "cbcopy", "i": slot, "c": c, "j": j})
+
     # -- a callback of one machine sends an event to another machine -------------------------
     def xtarget(self, slot, snd, coro_caller):
         """The machine a cross-instance send goes to, or None when the send is skipped: unknown / own slot, a busy
@@ -370,7 +401,13 @@ def make_callback(rt, c, cb, slot_getter=None):
         if is_guard:
             # truthy / falsy values of any type, not just True / False (chosen by invocation number: deterministic)
             v = rt.gv.get(cb["gname"], False)
+            if coro and cb.get("style") != "property" and n % 7 == 6:
+                # what a COROUTINE guard hands back may itself be awaitable (a job handle, a future): it is a value like
+                # any other - its truthiness counts, nobody awaits it
+                return AwaitableValue(rt, c, truthy=v)
             return (TRUTHY if v else FALSY)[n % 6]
+        if coro and cb["group"] in ("exit", "enter", "after") and n % 5 == 4:
+            return AwaitableValue(rt, c, truthy=True)     # a discarded result stays un-awaited, too
         return rt.retval(id(machine.model) if machine is not None else 0, c, token)
 
     if not coro:
@@ -386,9 +423,12 @@ def make_callback(rt, c, cb, slot_getter=None):
                     if isinstance(ev, dict) and "write" in ev:
                         rt.cbwrite(slot, c, machine, ev["write"])
                         continue
+                    if isinstance(ev, dict) and "copy" in ev:
+                        rt.cbcopy(slot, c, machine, ev)
+                        continue
                     if isinstance(ev, dict) and "listen" in ev:
                         # a listener WITHOUT any callback attached in the middle of the transition: nothing changes
-                        machine.add_listener(type("EmptyListener", (), {})())
+                        machine.add_listener(EmptyListener())
                         continue
                     if isinstance(ev, dict):          # to another machine
                         tgt = rt.xtarget(slot, ev, False)
@@ -453,8 +493,11 @@ def make_callback(rt, c, cb, slot_getter=None):
                     if isinstance(ev, dict) and "write" in ev:
                         rt.cbwrite(slot, c, machine, ev["write"])
                         continue
+                    if isinstance(ev, dict) and "copy" in ev:
+                        rt.cbcopy(slot, c, machine, ev)
+                        continue
                     if isinstance(ev, dict) and "listen" in ev:
-                        machine.add_listener(type("EmptyListener", (), {})())
+                        machine.add_listener(EmptyListener())
                         continue
                     if isinstance(ev, dict):          # to another machine
                         tgt = rt.xtarget(slot, ev, True)
@@ -646,6 +689,10 @@ def declared_events(d):
     else:
         out = list(d["evorder"])
     return out
+
+
+class EmptyListener:
+    """A listener without a single callback (module-level: machines that carry one can still be pickled)."""
 
 
 class ForwardingProxy:
@@ -1259,24 +1306,7 @@ class Runner:
                         clone = pickle.loads(pickle.dumps(sm))
                 finally:
                     self.rt.mode = "live"
-                if clone.model is sm.model and step.get("model_shared_ok") is None:
-                    self.rt.notes.append({"kind": "clone_shares_model", "i": i, "j": j})
-                try:   # tag the copied provider objects with the clone's slot
-                    for obj in [clone.model, *getattr(clone, "_listeners", {})]:
-                        if hasattr(obj, "__dict__") and "_vslot" in obj.__dict__:
-                            obj.__dict__["_vslot"] = j
-                except Exception:  # noqa: BLE001
-                    pass
-                self.sm[j] = clone
-                self.rt.register(clone, j)
-                self.opts[j] = self.opts.get(i, {"rtc": True})
-                self.async_hint[j] = self.async_hint.get(i, False)
-                self.user_models[j] = None
-                self.clone_of = getattr(self, "clone_of", {})
-                self.clone_of[j] = i
-                self.models[j] = clone.model
-                self.cls_of[j] = k
-                self.listeners[j] = {}
+                self.adopt_clone(i, j, sm, clone, step.get("model_shared_ok"))
                 self.ret_line(j, ("ret", None), cmp=False)
                 return
             else:
@@ -1285,6 +1315,28 @@ class Runner:
             self.ret_line(i, ("exc", e))
             return
         self.ret_line(i, ("ret", r), cmp=api != "activate")
+
+    def adopt_clone(self, i, j, sm, clone, shared_ok=None):
+        """Bookkeeping for a copy of the machine in slot i that now lives in slot j."""
+        k = self.cls_of[i]
+        if clone.model is sm.model and shared_ok is None:
+            self.rt.notes.append({"kind": "clone_shares_model", "i": i, "j": j})
+        try:   # tag the copied provider objects with the clone's slot
+            for obj in [clone.model, *getattr(clone, "_listeners", {})]:
+                if hasattr(obj, "__dict__") and "_vslot" in obj.__dict__:
+                    obj.__dict__["_vslot"] = j
+        except Exception:  # noqa: BLE001
+            pass
+        self.sm[j] = clone
+        self.rt.register(clone, j)
+        self.opts[j] = self.opts.get(i, {"rtc": True})
+        self.async_hint[j] = self.async_hint.get(i, False)
+        self.user_models[j] = None
+        self.clone_of = getattr(self, "clone_of", {})
+        self.clone_of[j] = i
+        self.models[j] = clone.model
+        self.cls_of[j] = k
+        self.listeners[j] = {}
 
     async def do_call_async(self, step):
         """Same as do_call for the in-loop driver: awaits what the facade returns."""
